@@ -12,7 +12,7 @@
 //
 // Delivery completeness over graphs (find_needed_segments) is NOT decided here.
 use super::*;
-use crate::{Command as _, HeadSet, Segment as _, SegmentIndex};
+use crate::{Command, HeadSet, Priority, Segment, SegmentIndex};
 
 #[path = "vstore.rs"]
 mod vstore;
@@ -20,7 +20,7 @@ use vstore::{VSeg, VStore};
 
 #[path = "vclient.rs"]
 mod vclient;
-use vclient::{APersp, ASeg, AStore, gid, id_byte};
+use vclient::{AFacts, APersp, gid, id_byte};
 
 fn loc(seg: u64, mc: u64) -> Location {
     Location::new(SegmentIndex::new(seg), MaxCut::new(mc))
@@ -257,22 +257,157 @@ fn c16_skip_jump_concrete_graph() {
 const S0_IDS: [u8; 3] = [10, 11, 12];
 const S1_IDS: [u8; 4] = [13, 14, 15, 16];
 
+/// Command payload of the stand-in commands: two bytes of a static array. (An empty `&[]`
+/// payload made CBMC unroll heapless' `extend_from_slice` element loop into the 3 KiB response
+/// buffer on a pointer comparison it cannot fold: > 9 GB, measured.)
+static PAYLOAD: [u8; 2] = [0xAA, 0xBB];
+
+#[derive(Clone, Copy)]
+struct KCmd {
+    id: u8,
+}
+
+impl Command for KCmd {
+    fn priority(&self) -> Priority {
+        Priority::Basic(0)
+    }
+    fn id(&self) -> CmdId {
+        vclient::cid(self.id)
+    }
+    fn parent(&self) -> Prior<Address> {
+        Prior::None
+    }
+    fn policy(&self) -> Option<&[u8]> {
+        None
+    }
+    fn bytes(&self) -> &[u8] {
+        &PAYLOAD
+    }
+}
+
+/// A stored segment: `len` commands with ids `ids[..len]`, max cuts first_mc..first_mc+len.
+#[derive(Clone, Copy)]
+struct KSeg {
+    index: u64,
+    prior: Prior<Location>,
+    first_mc: u64,
+    len: usize,
+    ids: [u8; 4],
+}
+
+impl Segment for KSeg {
+    type FactIndex = AFacts;
+    type Command<'a> = KCmd;
+    fn index(&self) -> SegmentIndex {
+        SegmentIndex::new(self.index)
+    }
+    fn head_id(&self) -> CmdId {
+        vclient::cid(self.ids[self.len - 1])
+    }
+    fn policy(&self) -> crate::PolicyId {
+        crate::PolicyId::new(0)
+    }
+    fn prior(&self) -> Prior<Location> {
+        self.prior
+    }
+    fn get_command(&self, location: Location) -> Option<KCmd> {
+        if location.segment.get() != self.index {
+            return None;
+        }
+        let mc = location.max_cut.get();
+        if mc < self.first_mc {
+            return None;
+        }
+        let off = (mc - self.first_mc) as usize;
+        if off >= self.len {
+            return None;
+        }
+        Some(KCmd { id: self.ids[off] })
+    }
+    fn facts(&self) -> Result<AFacts, StorageError> {
+        Ok(AFacts { tag: 0 })
+    }
+    fn shortest_max_cut(&self) -> MaxCut {
+        MaxCut::new(self.first_mc)
+    }
+    fn longest_max_cut(&self) -> Result<MaxCut, StorageError> {
+        Ok(MaxCut::new(self.first_mc + self.len as u64 - 1))
+    }
+    fn skip_list(&self) -> &[Location] {
+        &[]
+    }
+}
+
+struct KStore {
+    segs: [KSeg; 2],
+    heads: HeadSet,
+}
+
+impl Storage for KStore {
+    type Perspective = APersp;
+    type FactPerspective = AFacts;
+    type Segment = KSeg;
+    type FactIndex = AFacts;
+    fn get_linear_perspective(&self, _parent: Location) -> Result<APersp, StorageError> {
+        Err(StorageError::IoError)
+    }
+    fn get_fact_perspective(&self, _first: Location) -> Result<AFacts, StorageError> {
+        Ok(AFacts { tag: 0 })
+    }
+    fn new_merge_perspective(
+        &self,
+        _left: Location,
+        _right: Location,
+        _lca: Location,
+        _policy_id: crate::PolicyId,
+        _braid: AFacts,
+    ) -> Result<APersp, StorageError> {
+        Err(StorageError::IoError)
+    }
+    fn get_segment(&self, location: Location) -> Result<KSeg, StorageError> {
+        let i = location.segment.get() as usize;
+        if i >= 2 {
+            return Err(StorageError::SegmentOutOfBounds(location));
+        }
+        Ok(self.segs[i])
+    }
+    fn get_heads(&self) -> Result<&HeadSet, StorageError> {
+        Ok(&self.heads)
+    }
+    fn heads_offset(&self) -> Result<crate::HeadSetOffset, StorageError> {
+        Ok(crate::HeadSetOffset::new(0))
+    }
+    fn fact_cache(&self) -> Result<AFacts, StorageError> {
+        Ok(AFacts { tag: 0 })
+    }
+    fn commit_heads(&mut self, heads: HeadSet, _fact_cache: AFacts) -> Result<(), StorageError> {
+        self.heads = heads;
+        Ok(())
+    }
+    fn write(&mut self, _perspective: APersp) -> Result<KSeg, StorageError> {
+        Err(StorageError::IoError)
+    }
+    fn write_facts(&mut self, f: AFacts) -> Result<AFacts, StorageError> {
+        Ok(f)
+    }
+}
+
 struct OneGraph {
-    store: AStore,
+    store: KStore,
 }
 
 impl StorageProvider for OneGraph {
     type Perspective = APersp;
-    type Segment = ASeg;
-    type Storage = AStore;
+    type Segment = KSeg;
+    type Storage = KStore;
 
     fn new_perspective(&mut self, _policy_id: crate::PolicyId) -> APersp {
         APersp::new(Prior::None, Prior::None, 0)
     }
-    fn new_storage(&mut self, _init: APersp) -> Result<(GraphId, &mut AStore), StorageError> {
+    fn new_storage(&mut self, _init: APersp) -> Result<(GraphId, &mut KStore), StorageError> {
         Err(StorageError::IoError)
     }
-    fn get_storage(&mut self, _graph: GraphId) -> Result<&mut AStore, StorageError> {
+    fn get_storage(&mut self, _graph: GraphId) -> Result<&mut KStore, StorageError> {
         Ok(&mut self.store)
     }
     fn remove_storage(&mut self, _graph: GraphId) -> Result<(), StorageError> {
@@ -286,21 +421,28 @@ impl StorageProvider for OneGraph {
 }
 
 fn chain_provider() -> OneGraph {
-    let mut store = AStore::with_chain(&S0_IDS);
-    let mut seg = ASeg::empty();
-    seg.index = 1;
-    seg.prior = Prior::Single(loc(0, 2));
-    seg.first_mc = 3;
-    seg.len = 4;
-    seg.ids = S1_IDS;
-    store.segs[1] = seg;
-    store.nseg = 2;
-    store.heads = HeadSet::single(LocatedAddress {
+    let s0 = KSeg {
+        index: 0,
+        prior: Prior::None,
+        first_mc: 0,
+        len: 3,
+        ids: [S0_IDS[0], S0_IDS[1], S0_IDS[2], 0],
+    };
+    let s1 = KSeg {
+        index: 1,
+        prior: Prior::Single(loc(0, 2)),
+        first_mc: 3,
+        len: 4,
+        ids: S1_IDS,
+    };
+    let heads = HeadSet::single(LocatedAddress {
         id: vclient::cid(16),
         segment: SegmentIndex::new(1),
         max_cut: MaxCut::new(6),
     });
-    OneGraph { store }
+    OneGraph {
+        store: KStore { segs: [s0, s1], heads },
+    }
 }
 
 /// A responder in state Send whose to_send list is [ (s0, a), (s1, b) ] with symbolic start
@@ -364,12 +506,12 @@ fn get_commands_case(a: u64, b: u64, ns: usize) -> (usize, usize) {
     };
     let want = if m < COMMAND_RESPONSE_MAX { m } else { COMMAND_RESPONSE_MAX };
     assert!(cmds.len() == want);
-    assert!(data.is_empty());
+    assert!(data.len() == 2 * want);
     // in order, nothing skipped (universally quantified position)
     let j: usize = kani::any();
     if j < cmds.len() {
         assert!(id_byte(cmds[j].id) == exp[j]);
-        assert!(cmds[j].length == 0 && cmds[j].policy_length == 0);
+        assert!(cmds[j].length == 2 && cmds[j].policy_length == 0);
     }
     // bookkeeping
     assert!(idx >= ns && idx <= 2);
